@@ -323,10 +323,10 @@ def graded_cases(B, progs, tier, seed, rep, stats):
         seen.add(k)
         for p in GRADED_POINTS:
             try:
-                j = fjets.run_program(r['prog'], 1.0, p)
+                j, isc = fjets.run_program(r['prog'], 1.0, p, want_scale=True)
             except fjets.DomainError:
                 continue
-            items.append(('.'.join(r['prog']), p, j, [o for o in GRADED_LOSSY if o in r['prog']], r['prog']))
+            items.append(('.'.join(r['prog']), p, j, [o for o in GRADED_LOSSY if o in r['prog']], r['prog'], isc))
     for name in GRADED_EXTRA:
         for p in GRADED_POINTS + (1.6, -2.2):
             try:
@@ -334,10 +334,10 @@ def graded_cases(B, progs, tier, seed, rep, stats):
             except (fjets.DomainError, ValueError, ZeroDivisionError):
                 continue
             if all(math.isfinite(t) for t in j):
-                items.append((name, p, j, [o for o in GRADED_LOSSY if o == name], None))
+                items.append((name, p, j, [o for o in GRADED_LOSSY if o == name], None, 0.0))
     if tier == 'quick' and len(items) > 1500:
         items = rnd.sample(items, 1500)
-    for name, p, jet, lossy, prog in items:
+    for name, p, jet, lossy, prog, isc in items:
         rho = exprs.radius_estimate([list(float(v).as_integer_ratio()) for v in jet])
         for sh in (26, 20, 13, 7):
             for (a, b) in ((1.0, 1.0), (1.0, 0.5)):
@@ -365,7 +365,7 @@ def graded_cases(B, progs, tier, seed, rep, stats):
                 g = got.reshape(4, -1)[:, 0]
                 # sizes of the four components: f, delta f', delta f', delta^2 f'' (plus higher terms); a component that vanishes
                 # identically is judged against the next smaller one
-                lvl = np.array([1.0, delta, delta, delta * delta]) * max(abs(t) for t in jet[:5])
+                lvl = np.array([1.0, delta, delta, delta * delta]) * max([abs(t) for t in jet[:5]] + [isc])      # isc: size of the program's intermediate values
                 tol = GRADED_TOL * np.maximum(size, 1e-2 * lvl) + trunc
                 ratio = float(np.max(np.abs(g - want) / tol))
                 stats['graded'] += 1
